@@ -152,6 +152,19 @@ func runOSBase(c *Ctx, prop string) {
 			}
 		}},
 		{"WriteFile", func(fs afero.Fs) { afero.WriteFile(fs, "/d/g", []byte("new"), 0o644) }},
+		// the optional interfaces: a link made through the wrapper never lands in the base / source
+		{"Symlink", func(fs afero.Fs) {
+			if l, ok := fs.(afero.Linker); ok {
+				l.SymlinkIfPossible("f", "/link")
+			}
+		}},
+		{"Symlink-in-dir", func(fs afero.Fs) {
+			if l, ok := fs.(afero.Linker); ok {
+				l.SymlinkIfPossible("/f", "/d/link")
+			}
+		}},
+		{"Chown", func(fs afero.Fs) { fs.Chown("/f", os.Getuid(), os.Getgid()) }},
+		{"Chtimes-zero", func(fs afero.Fs) { fs.Chtimes("/f", time.Time{}, time.Time{}) }},
 	}
 	for i, mu := range muts {
 		fs := mk()
